@@ -20,6 +20,7 @@ from hypothesis import strategies as st
 
 from vlib import urlref, urlgrammar as G
 from vlib.core import Campaign, hyp_campaign
+from vlib.fuzz import fuzz_campaign
 
 PROPERTY = "C16"
 RULE = ("is_url: URL-grammar strings and near-misses (bad TLD, single label, spaces in path, ftp/wss/custom scheme, '//', "
@@ -38,7 +39,7 @@ ASSUMPTIONS = [
 OPTS = ["require_protocol", "tld_aware", "allow_spaces_in_path", "only_http_https"]
 STRICT = {"require_protocol": True, "tld_aware": True, "allow_spaces_in_path": False, "only_http_https": True}
 PROTO = re.compile(r"^[^\W\d_]{0,64}:?//")   # letters of any script: the library's own patterns are case-insensitive, which lets e.g. U+0130 count as 'i' 
-SPECIAL = re.compile(r"^(localhost|(\d{1,3}\.){3}\d{1,3}$|\[?[\da-f]*:[\da-f:.]*\]?$)", re.I)
+SPECIAL = re.compile(r"^(localhost|(\d{1,3}\.){3}\d{1,3}|\[?[\da-f]*:[\da-f:.]*\]?)$", re.I)
 
 _TLDS = {}
 
@@ -247,6 +248,18 @@ def _text_strategy(tier):
     return st.lists(tok, min_size=1, max_size=14).map(lambda l: {"kind": "text", "text": "".join(l)})
 
 
+def _utf8(data):
+    return data.decode("utf-8", "ignore")
+
+
+FUZZ_TARGETS = {
+    "text": (lambda data: {"kind": "text", "text": _utf8(data)}, lambda c: _text_nt(c["text"]), lambda c: _text_cl(c["text"])),
+    "is_url": (lambda data: {"kind": "is_url", "s": _utf8(data)}, lambda c: _isurl_nt(c["s"]), None),
+}
+FUZZ_DICT = ["http://", "https://", "ftp://", "//", "www.", ".com", ".fr", ".co.uk", "a.com", "](", "[", "]", "(", ")", "\u2003", "\u00a0", "…", "»", "’", ".", ",",
+             "localhost", "127.0.0.1", "[::1]", ":8080", "/x", "?y=1", "#z", "@", " ", "\n", "é", "xn--", "рф", "onion", "臺灣", "İ", "ſ"]
+
+
 def campaigns(tier, seed):
     quick = tier == "quick"
     cs = [
@@ -259,6 +272,12 @@ def campaigns(tier, seed):
         Campaign("text-exhaustive-reduced", _text_enum, "enumeration", exhaustive=True,
                  bounds="every text of <=%d tokens over a %d-token reduced alphabet" % ((3 if quick else 4), len(TOKENS_RED)),
                  params={"length": 3 if quick else 4, "reduced": True}),
+        Campaign("text-coverage-guided", fuzz_campaign("text", runs=(3000, 200000), max_len=80, dictionary=FUZZ_DICT,
+                                                       corpus=["see http://a.com/x, and [http://b.fr/y](http://c.net/z).", "[t]( https://b.fr/x\u2003» www.a.com"]), "atheris",
+                 bounds="libFuzzer over UTF-8 texts <= 80 bytes, coverage feedback from ural, 16 independent seeds"),
+        Campaign("is_url-coverage-guided", fuzz_campaign("is_url", runs=(2000, 100000), max_len=64, dictionary=FUZZ_DICT,
+                                                         corpus=["http://lemonde.fr/a b", "lemonde.fr", "//localhost:80/x"]), "atheris",
+                 bounds="libFuzzer over UTF-8 strings <= 64 bytes x 16 configurations"),
         Campaign("text-random", hyp_campaign(_text_strategy, lambda v: v, lambda c: _text_nt(c["text"]), lambda c: _text_cl(c["text"]),
                                              examples=(800, 15000)), "hypothesis", bounds="texts up to 14 tokens incl. grammar URLs"),
     ]
